@@ -14,7 +14,8 @@ Protocol (model name c16, see lean/PygModel/USetDriver.lean):
 The implementation runner snapshots every operand before an operation and re-reads it afterwards; a changed operand or a
 result of the wrong class is reported in the reply itself (`mutated ...`, `wrongtype ...`) and is a violation.
 """
-import itertools, copy as _copy, re, inspect
+import itertools, copy as _copy, re, inspect, datetime
+import numpy as np
 from .. import proto
 from ..proto import enc
 from ..engine import Finding
@@ -35,6 +36,15 @@ ASSUMPTIONS = ['python == / hash on the generated elements (None, ints, quarter 
                'tuple paths (d - (a, b)) and absent dotted keys in d[k] / d[k1, k2] / d[[..]] are modelled on Val-valued mappings (PygModel/DADotted.lean) and generated for the stateless operators; in the handle histories (generic heap model) keys hold no dot; the path walk is generated through dict values and into every kind of leaf (numbers, None, strings incl. a part that is a substring of the leaf, tuples, lists: a path into a leaf is absent - no-op since fix bd26767); key selections given as a set / dict / dict view raise TypeError (unhashable) and are not generated: the selections of the statement are a key, a list of keys or a tuple path; relabelling onto an existing key / of two keys to one name (a value is lost: the statement has no reading) is generated for correspondence (d.relabel-collision; model theorem relabel_lookup: the last colliding item wins); self-referential callables are outside the acyclic statement and generated for correspondence only (call-selfloop)']
 
 ELEMS = [None, 0, 1, 2, 3, 4, 5, 1.0, 2.0, 2.5, 'a', 'b', 'c', '', (1, 2), (1, 'a'), (2.0, 1), ()]
+# (review 5 w2 F3) hashable elements whose == / hash agree with the model's one equality: numpy numbers are the number (np.int64(2) == 2 == 2.0,
+# same hash), datetimes are themselves.  Beside a TUPLE a numpy scalar answers == with an array (np.int64(2) == (2,) is array([True])), so
+# `x in u` - every operator with an operand - raises or lies there (numpy's ==, not pyg_base's): such pools are generated for the constructor
+# only (tag ulist-new-numpy), where "duplicate" means what python's own sets / dicts mean (hash and ==)
+NP_ELEMS = [np.int64(2), np.int64(7), np.float64(2.5), np.float64(1.0), datetime.datetime(2020, 1, 1), datetime.datetime(2020, 1, 2)]
+# law only (no wire cell that decodes to the same type, or == and hash disagree between members: np.timedelta64(1,'D') == 1,
+# np.datetime64('2020-01-01') == date(2020,1,1), with different hashes; True == 1 with the same hash)
+LAW_ELEMS = [np.timedelta64(1, 'D'), np.timedelta64(2, 'D'), np.datetime64('2020-01-01'), datetime.date(2020, 1, 1), datetime.date(2020, 1, 2),
+             True, False, np.bool_(True), datetime.timedelta(days=1), np.str_('a'), np.uint8(1), np.float32(2.5)]
 KEYS = ['a', 'b', 'c', 'd', 'e', 'x', 'y']
 FLAT_VALS = [None, 0, 1, 2, 2.5, 'u', 'v', (1, 2), [1, 2]]
 # dict VALUES: `Dict + other` is tree_update (C15), so a dict under the same key on both sides is merged while dictattr replaces it
@@ -81,8 +91,18 @@ def rand_elems(rng, pool):
     return [rng.choice(pool) for _ in range(n)]          # repeats are the norm with a pool of 3..8
 
 
+def gen_ulist_new_numpy(rng):
+    """the constructor on numpy scalars / datetimes BESIDE tuples (w2 F3: uniqueness came from set(), the position from list.index)"""
+    tuples = [e for e in ELEMS if isinstance(e, tuple)]
+    pool = rng.sample(NP_ELEMS, rng.choice([1, 2, 3])) + rng.sample(tuples + [(2,), (3,), (7,), (2.5,)], rng.choice([1, 2, 3])) + rng.sample(ELEMS, rng.choice([0, 2, 4]))
+    return dict(tag='ulist-new-numpy', lines=['(c16 u.new %s)' % enc([rng.choice(pool) for _ in range(rng.choice([2, 3, 4, 6, 9]))]) for _ in range(rng.choice([1, 2, 3]))])
+
+
 def gen_ulist_history(rng):
-    pool = rng.sample(ELEMS, rng.choice([3, 4, 6, 8]))
+    elems = ELEMS
+    if rng.random() < 0.25:
+        elems = [e for e in ELEMS if not isinstance(e, tuple)] + NP_ELEMS
+    pool = rng.sample(elems, rng.choice([3, 4, 6, 8]))
     lines = ['(c16 u.new %s)' % enc(rand_elems(rng, pool))]
     n = 1
     for _ in range(rng.choice([2, 4, 6, 10])):
@@ -109,7 +129,7 @@ def gen_ulist_history(rng):
             lines.append('(c16 %s %d %d)' % (rng.choice(['u.addh', 'u.andh', 'u.subh']), h, rng.randrange(n)))
         else:
             op = rng.choice(['u.add', 'u.and', 'u.sub'])
-            x = enc(rand_elems(rng, pool)) if rng.random() < 0.55 else enc(rng.choice(pool if rng.random() < 0.8 else ELEMS))
+            x = enc(rand_elems(rng, pool)) if rng.random() < 0.55 else enc(rng.choice(pool if rng.random() < 0.8 else elems))
             lines.append('(c16 %s %d %s)' % (op, h, x))
         n += 1
     return dict(tag='ulist-history', lines=lines)
@@ -464,6 +484,8 @@ def generate(rng, tier):
     n = 350 if tier == 'quick' else 8000
     for _ in range(n):
         yield gen_ulist_history(rng)
+    for _ in range(100 if tier == 'quick' else 2000):
+        yield gen_ulist_new_numpy(rng)
     n = 1200 if tier == 'quick' else 30000
     for _ in range(n):
         yield gen_da(rng)
@@ -821,6 +843,26 @@ def _dedup(xs):
     return out
 
 
+def _first_members(xs):
+    """reference for the constructor: first occurrences, two elements being one member when they are the same object or have the same
+    hash and compare == (what a python set / dict key means; written out so that neither set() nor dict is relied on)"""
+    out = []
+    for x in xs:
+        if not any(y is x or (hash(y) == hash(x) and bool(y == x)) for y in out):
+            out.append(x)
+    return out
+
+
+def _roundtrips(x):
+    try:
+        y = proto.dec(proto.parse(enc(x)))
+    except Exception:
+        return False
+    if isinstance(x, tuple):
+        return isinstance(y, tuple) and len(x) == len(y) and all(type(a) is type(b) and a == b for a, b in zip(x, y))
+    return type(y) is type(x) and y == x
+
+
 def _topo_eval(env, consts, fns):
     """reference: evaluate every callable once all of its callable arguments are known; None if impossible (cycle)"""
     res = dict(env)
@@ -892,6 +934,22 @@ def laws(rng, tier, ctx):
             f(u, x, ys, i, n)
             if type(u) is not ulist or list(u) != _dedup(ref):
                 yield Finding('violation', case, 'ulist after %s is %s; a list without duplicates in first-occurrence order would be %s' % (name, enc(list(u)), enc(_dedup(ref))))
+    # (w2 F3) the constructor on every kind of hashable element, decided by IDENTITY of the kept objects: the members are the first
+    # occurrences, in their order, where two elements are one member exactly when python's sets / dicts say so (same hash and ==)
+    for _ in range(600 if tier == 'quick' else 12000):
+        pool = rng.sample(ELEMS + NP_ELEMS + LAW_ELEMS + [(2,), (3,), (1,)], rng.choice([2, 3, 5, 8]))
+        xs = [rng.choice(pool) for _ in range(rng.choice([2, 3, 4, 6, 9]))]
+        count += 1
+        lines = ['(c16 u.new %s)' % enc(xs)] if all(_roundtrips(x) for x in xs) else []
+        case = dict(tag='law-ulist-new-identity', lines=lines, note='ulist(%r)' % (xs,))
+        want = _first_members(xs)
+        try:
+            got = list(ulist(xs))
+        except Exception as e:
+            yield Finding('violation', case, 'ulist(%r) raised %s: %s' % (xs, type(e).__name__, e))
+            continue
+        if [id(x) for x in got] != [id(x) for x in want]:
+            yield Finding('violation', case, 'ulist(%r) = %r; the first occurrences of its members (same hash and ==), in order, are %r' % (xs, got, want))
     m = 400 if tier == 'quick' else 8000
     for _ in range(m):
         pool = rng.sample(ELEMS, rng.choice([3, 5, 8]))
